@@ -444,11 +444,19 @@ class Exec:
             c = self.ev(cond, out)
             cmpop, hi = None, None
             if c[0] == "op" and c[1] in ("<", "<=", ">", ">=", "!="):
+                flip = {"<": ">", "<=": ">=", ">": "<", ">=": "<=", "!=": "!="}
                 if c[2] == lv:
                     cmpop, hi = c[1], c[3]
                 elif c[3] == lv:
-                    flip = {"<": ">", "<=": ">=", ">": "<", ">=": "<=", "!=": "!="}
                     cmpop, hi = flip[c[1]], c[2]
+                elif c[1] != "!=":
+                    # i + d < n  (the induction variable with a constant offset, integer arithmetic without wrap):
+                    # normalise to i < n - d
+                    lin = sym.linear_in(sym.sub(c[2], c[3]), lv)
+                    if lin is not None and lin[0] == I(1):
+                        cmpop, hi = c[1], sym.neg(lin[1])
+                    elif lin is not None and lin[0] == I(-1):
+                        cmpop, hi = flip[c[1]], lin[1]
             if cmpop is not None and not sym.contains(hi, lv):
                 b = []
                 st = self.block(body, b)
@@ -464,7 +472,7 @@ class Exec:
                 out.append(eff)
                 self.forget_stores_in(b + latch)
                 self.havoc([body] + latch_nodes)
-                self.env[vid] = ("var", vname, vid)
+                self.env[vid] = loop_end(eff) if not eff.get("body_exits") else ("var", vname, vid)
                 return "fall"
             # complex condition (e.g. two-variable loops): fall through to generic form
         # generic
@@ -965,6 +973,63 @@ def flat(effects, into_inlined=True, into_loops=True, into_ifs=True):
                 yield from flat(x["latch"], into_inlined, into_loops, into_ifs)
         elif e == "inlined" and into_inlined:
             yield from flat(x["body"], into_inlined, into_loops, into_ifs)
+
+
+CMP_CODE = {"<": 0, "<=": 1, ">": 2, ">=": 3, "!=": 4}
+
+
+def loop_end(lp):
+    """value of the induction variable after a counted loop without early exit, as an opaque term that keeps the
+    loop's descriptor: ("call", "$loop_end", (lo, hi, step, cmp code, line))"""
+    return ("call", "$loop_end", (lp["lo"], lp["hi"], lp["step"], I(CMP_CODE[lp["cmp"]]), I(lp.get("l", 0))))
+
+
+def paths(effects, limit=4096):
+    """acyclic control paths through an effect tree: yields (leaf effects in order, conditions taken, status) where
+    status is "exit", "return" or "fall"; a loop body is taken zero times or once; inlined bodies are entered"""
+    count = [0]
+
+    def go(effs, i, acc, conds):
+        while i < len(effs):
+            x = effs[i]
+            e = x["e"]
+            if e == "if":
+                for br, st_key, pol in (("then", "then_status", True), ("else", "else_status", False)):
+                    for acc2, conds2, st in go(x[br], 0, acc, conds + [(x["cond"], pol, x["l"])]):
+                        if st == "fall":
+                            yield from go(effs, i + 1, acc2, conds2)
+                        else:
+                            yield acc2, conds2, st
+                return
+            if e in ("loop", "while"):
+                yield from go(effs, i + 1, acc, conds)
+                for acc2, conds2, st in go(x["body"] + (x.get("latch") or []), 0, acc, conds):
+                    if st == "fall":
+                        yield from go(effs, i + 1, acc2, conds2)
+                    else:
+                        yield acc2, conds2, st
+                return
+            if e == "inlined":
+                for acc2, conds2, st in go(x["body"], 0, acc, conds):
+                    if st == "exit":
+                        yield acc2, conds2, st
+                    else:
+                        yield from go(effs, i + 1, acc2, conds2)
+                return
+            acc = acc + [x]
+            if e == "exit":
+                yield acc, conds, "exit"
+                return
+            if e == "return":
+                yield acc, conds, "return"
+                return
+            i += 1
+        count[0] += 1
+        if count[0] > limit:
+            raise RuntimeError("path limit exceeded")
+        yield acc, conds, "fall"
+
+    yield from go(list(effects), 0, [], [])
 
 
 def run_function(variant, fn, args=None, hooks=None, casts="drop", this=None):
